@@ -36,16 +36,16 @@ CLAIMS = {
         text="Proof over the real reverse_ops, commit_reversed_operations and get_undo_operations: for accurate operations the reversal restores exactly the prior task set (Delete restored from drained old_task pairs in any order); the given operations must be the tail of the unsynchronized list, exactly they are removed and the transaction committed, otherwise nothing changes and false is returned; only unsynchronized operations are ever offered for undo. Replica::{get_undo_operations, commit_reversed_operations}: on success the working set is rebuilt without renumbering, on mismatch nothing changes.",
         note="'accurate' (recorded old values are what the state held) is the precondition C19 establishes. Trusted: prelude, StorageTxn contract."),
     'C08': dict(
-        text="Proof that LocalServer::{add_version,get_child_version,get_snapshot} implement the sequential Server chain protocol over a ghost {latest, rows} database behind the SQL helper methods: accept iff parent is latest or none exists, reject naming latest and write nothing, return the stored child, NoSuchVersion for an unknown parent. HTTP client (unit httpsrv): 409 is read as ExpectedParentVersion(X-Parent-Version-Id), any other non-error status as Ok(X-Version-Id) with the X-Snapshot-Request urgency, 404 as NoSuchVersion / no snapshot, other error statuses as errors; ids come from the documented headers, bodies only with the documented content type.",
-        note="LOCAL BACKEND AND HTTP CLIENT ONLY (the client is verified for how it builds requests and reads responses, not the server program). The SQL helper bodies are trusted by contract (their text is hashed into the evidence: a change makes the check UNDECIDED). Git, object-store and HTTP backends are outside the verifier's reach and not covered."),
+        text="Proof that LocalServer::{add_version,get_child_version,get_snapshot} implement the sequential Server chain protocol over a ghost {latest, rows} database behind the SQL helper methods: accept iff parent is latest or none exists, reject naming latest and write nothing, return the stored child, NoSuchVersion for an unknown parent. HTTP client (unit httpsrv): 409 is read as ExpectedParentVersion(X-Parent-Version-Id), any other non-error status as Ok(X-Version-Id) with the X-Snapshot-Request urgency, 404 as NoSuchVersion / no snapshot, other error statuses as errors; ids come from the documented headers, bodies only with the documented content type. Object store (unit cloudsrv, one client at a time): CloudServer::add_version rejects a parent that is not `latest` naming the latest and changing nothing, otherwise stores the sealed segment under v-PARENT-VERSION and compare-and-swaps `latest`, deleting the object again when the swap is lost; get_child_version serves only a child that is the latest version or has children itself, with the stored bytes opened under its own id; snapshots are stored under s-VERSION and returned only if they open.",
+        note="LOCAL BACKEND, HTTP CLIENT AND OBJECT STORE (SEQUENTIALLY) ONLY: the object store under concurrent clients is C09 (not applicable), its name/list helpers and cleanup are trusted by contract (hashed), the git backend is out of reach. The SQL helper bodies are trusted by contract (their text is hashed into the evidence: a change makes the check UNDECIDED). Git, object-store and HTTP backends are outside the verifier's reach and not covered."),
     'C11': dict(
-        text="Proof that the backend invariant (rows = one parent-linked chain ending at latest, no other row served) holds after EVERY helper call inside LocalServer::add_version, i.e. at every point where a failure or stop can occur between database transactions, and that an Err from any helper returns without further writes.",
-        note="LOCAL BACKEND ONLY; each SQL helper is assumed to be one atomic SQLite transaction with the stated effect (hashed, trusted). Object-store and git backends not covered."),
+        text="Proof that the backend invariant (rows = one parent-linked chain ending at latest, no other row served) holds after EVERY helper call inside LocalServer::add_version, i.e. at every point where a failure or stop can occur between database transactions, and that an Err from any helper returns without further writes. Object store (unit cloudsrv): whatever step of CloudServer::add_version fails or is interrupted (each request may or may not have been carried out), the store is left unchanged, or with only the uploaded-but-uncommitted object, or with the accepted version; such an object is proved not to be a true child (lemma_orphan_not_served), and get_child_version is proved to serve true children only.",
+        note="LOCAL BACKEND AND OBJECT STORE ONLY; for the object store the freshness of Uuid::new_v4 (A12) is assumed and the 'every replica can go on synchronizing' composition is not derived; each SQL helper is assumed to be one atomic SQLite transaction with the stated effect (hashed, trusted). Object-store and git backends not covered."),
     'C12': dict(
         text="Proof that sync uploads a snapshot only for the version it just added, only when no local operation remains (so the encoded task set is the replay of the chain up to that version), only when the server's urgency meets the replica's threshold; make_snapshot encodes exactly all_tasks; apply_snapshot is reached only on an empty replica, re-checks emptiness, installs exactly the decoded task set and version and never replaces existing data; a replica started from a snapshot satisfies the replica invariant and hence ends equal to a full replay.",
         note="JSON+zlib round trip is assumption A6 ('whatever strings the tasks contain' is inside A6, not decided)."),
     'C13': dict(
-        text="Proof over server/encryption.rs: Envelope byte layout (format byte 1, 12-byte nonce, payload; from_bytes fails iff too short or wrong version), AAD = app id byte + 16 version-id bytes, key derivation with PBKDF2-HMAC-SHA256 / 600000 iterations / ChaCha20-Poly1305 constants pinned in postconditions, seal/unseal round trip and rejection of any changed secret, salt, version id, format byte, nonce, ciphertext or truncation, over an idealised AEAD contract for ring. HTTP backend (src/server/sync/mod.rs, unit httpsrv): the key is derived with the client id as salt; add_version / add_snapshot put into the request body only the sealed form bound to the parent version id / the snapshot's version id; get_child_version / get_snapshot return only bytes that open under the client key and the version id named in the response headers.",
+        text="Proof over server/encryption.rs: Envelope byte layout (format byte 1, 12-byte nonce, payload; from_bytes fails iff too short or wrong version), AAD = app id byte + 16 version-id bytes, key derivation with PBKDF2-HMAC-SHA256 / 600000 iterations / ChaCha20-Poly1305 constants pinned in postconditions, seal/unseal round trip and rejection of any changed secret, salt, version id, format byte, nonce, ciphertext or truncation, over an idealised AEAD contract for ring. HTTP backend (src/server/sync/mod.rs, unit httpsrv): the key is derived with the client id as salt; add_version / add_snapshot put into the request body only the sealed form bound to the parent version id / the snapshot's version id; get_child_version / get_snapshot return only bytes that open under the client key and the version id named in the response headers. Object store (unit cloudsrv): add_version / add_snapshot store only the sealed form bound to the object's own version id; get_child_version / get_snapshot return only what opens under that id.",
         note="ring's primitives are assumed (A7: open inverts seal only for the same key, nonce and AAD). reqwest/url are stand-ins (A10: a response remembers the request it answers). The object-store and git backends' call sites are outside the verifier's reach and not covered; the request URL is opaque (format!)."),
     'C14': dict(
         text="Proof that from_op maps Create/Delete/Update to exactly the documented fields and UndoPoint to nothing, that the real SyncOp carries nothing beyond the documented wire fields (wire view injective: an added field fails the lemma), and that sync sends, in order, prefixes of the rebased operations derived from the unsynchronized list.",
